@@ -95,6 +95,10 @@ func runWorldCase(t *rapid.T, s *worldSpec) {
 		w.Labels["normal_form_case"] = true
 	}
 	steps := rapid.IntRange(p.MinSteps, p.MaxSteps).Draw(t, "steps")
+	if p.QuietOneIn > 0 && rapid.IntRange(1, p.QuietOneIn).Draw(t, "quiet") == 1 {
+		w.Quiet = true
+		w.Labels["quiet_case"] = true
+	}
 	cnt0 := refCnt
 	handle := func(v *Violation) bool {
 		if v == nil {
@@ -115,6 +119,9 @@ func runWorldCase(t *rapid.T, s *worldSpec) {
 			return
 		}
 		w.trackIndex(op)
+		if w.Quiet && i < steps-1 {
+			continue
+		}
 		if handle(w.Observe()) {
 			return
 		}
@@ -216,11 +223,15 @@ func replayHistory(s *worldSpec, h History) (v *Violation, known string, err err
 	}
 	w.rememberInitialCfg()
 	w.trackIndex(Op{Kind: "reopen"})
-	for _, op := range h.Ops {
+	w.Quiet = h.Quiet
+	for i, op := range h.Ops {
 		if v := w.Apply(op); v != nil {
 			return done(v)
 		}
 		w.trackIndex(op)
+		if h.Quiet && i < len(h.Ops)-1 {
+			continue
+		}
 		if v := w.Observe(); v != nil {
 			return done(v)
 		}
